@@ -439,7 +439,7 @@ class BaseBackend(CodeGen):
         idx = self._process_idx(state_idx)
         d = self._process_delay(delay)
         if dt is not None and not dt_adapt:
-            self.add_code_line(f"{lhs} = hist(t*{dt:.10e}-{d})[{idx}]")
+            self.add_code_line(f"{lhs} = hist(t*{float(dt)!r}-{d})[{idx}]")
         else:
             self.add_code_line(f"{lhs} = hist(t-{d})[{idx}]")
 
